@@ -67,6 +67,9 @@ def generate(rng, tier, index):
     spec["sources"] = srcs
     spec["gradient"] = {"method": "reversible", "recorder": []}
     spec["init_seed"] = int(rng.integers(0, 2**31))
+    # one scene in three with sources starts from zero fields: every field is then source-made, so a defect in how a
+    # source is undone is measured against the source's own scale instead of being dwarfed by O(1) random fields
+    spec["init_scale"] = 0.0 if (srcs and rng.uniform() < 0.35) else 1.0
     # seeded walk: first go forward a bit, then random, finally reach T and come back to 0
     walk, t = [], 0
     for _ in range(int(rng.integers(T, 3 * T + 1))):
@@ -116,7 +119,7 @@ def execute(spec):
         scn = sc.build_scene(spec)
     except NotImplementedError as e:
         return {"rejected": True, "nontrivial": False, "stats": {"rejected": 1}, "digest": "rejected:" + str(e)[:40]}
-    E0, H0 = sc.random_fields(scn, spec["init_seed"], scale=1.0)
+    E0, H0 = sc.random_fields(scn, spec["init_seed"], scale=float(spec.get("init_scale", 1.0)))
     arrays = scn.arrays.aset("fields->E", E0).aset("fields->H", H0)
     st = dr.Stepper(scn, record_detectors=False, record_boundaries=False)
     state = st.state0(arrays)
@@ -169,6 +172,7 @@ def execute(spec):
         stats["probe_source_" + s_["kind"]] = stats.get("probe_source_" + s_["kind"], 0) + 1
     stats["probe_switched_source"] = sum(1 for s in spec.get("sources", []) if s.get("switch"))
     stats["max_visits"] = max(visits.values())
+    stats["probe_zero_initial_fields"] = int(spec.get("init_scale", 1.0) == 0.0)
     sig = specgen.scene_signature(spec, bool(rt), bool(op.get("reset_fields")), min(4, max(visits.values())))
     digest = dr.digest_arrays(dr.fields_np(state)) + f":{dr.sig3(resid['revisit'])}:v{len(viol)}"
-    return {"violations": viol, "stats": stats, "residuals": resid, "nontrivial": nontrivial, "signature": sig, "digest": digest}
+    return {"violations": viol, "stats": stats, "residuals": resid, "nontrivial": bool(nontrivial and scale > 0), "signature": sig, "digest": digest}
